@@ -129,7 +129,8 @@ fn main() -> Result<(), anyhow::Error> {
 
             number_of_dimensions_in_input = number_of_dimensions_in_input.max(n);
 
-            // Convert the text representation to a Coor4D
+            // Convert the text representation to a Coor4D (ignoring surplus columns)
+            args.truncate(5);
             args.extend(&(["0", "0", "0", "NaN", "0"][args.len()..]));
             let mut b: Vec<f64> = vec![];
             for e in args {
